@@ -558,8 +558,11 @@ def backport_map(repo: Repo) -> RuleRun:
                 return None
             if name in ("np.array", "np.asarray") and call.args:
                 return ev.eval(call.args[0])
+            if name == "Point" and call.args:
+                return Obj("fresh_point", position=ev.eval(call.args[0]))
             return NO_MATCH
 
+        before_points = {id(p_): p_ for op_ in ops for nm_ in ("bottom", "top") for p_ in op_.get(f"{nm_}_face").get("points")}
         ev = Evaluator(repo=repo, module=fn.module, call_hook=hook)
         try:
             ev.call_funcinfo(fn, [mesh])
@@ -580,6 +583,9 @@ def backport_map(repo: Repo) -> RuleRun:
                 wrong = [k for k in range(8) if got[k] != want[k]]
                 if wrong:
                     problems.append(f"operation {i}: corner(s) {wrong} receive {[repr(got[k]) for k in wrong]} instead of the positions of its own block's vertices {wrong}")
+        replaced = [p_._name for op_ in ops for nm_ in ("bottom", "top") for p_ in op_.get(f"{nm_}_face").get("points") if id(p_) not in before_points]
+        if replaced:
+            problems.append(f"{len(replaced)} corner point objects were REPLACED instead of moved (what the user declared on them - projections to geometry - is lost by backport)")
         if events != ["self.clear", "self.assemble"]:
             problems.append(f"after copying the positions backport calls {events}; expected clear() then assemble()")
         r.check(not problems, fn, f"3 operations, deleted={deleted}: every live operation gets its block's 8 positions", f"Mesh.backport (deleted operation: {deleted}): " + "; ".join(problems), fn.node, key=f"deleted={deleted}")
@@ -615,4 +621,13 @@ def no_class_state(repo: Repo) -> RuleRun:
 
 no_class_state.rule_id = "C12.NO-CLASS-STATE"
 
-RULES = [clear_complete, grade_idempotent, lockstep_filter, backport_map, delete_skip, assemble_walk, backport_owns_points, no_class_state]
+def no_stale_lazy_cache(repo: Repo) -> RuleRun:
+    """Writing again after the model changed gives the file of the changed model: no value resolved for one edge length / one history is kept for the next (Chop.results, slave patches)."""
+    from ..memo import lazy_cache_rule
+
+    return lazy_cache_rule(repo, PROP, "C12.NO-STALE-CACHE", ('grading.', 'lists.', 'items.', 'mesh'))
+
+
+no_stale_lazy_cache.rule_id = "C12.NO-STALE-CACHE"
+
+RULES = [clear_complete, grade_idempotent, lockstep_filter, backport_map, delete_skip, assemble_walk, backport_owns_points, no_class_state, no_stale_lazy_cache]
